@@ -33,9 +33,11 @@ const (
 	Custom           // Action.Reply as the frame body
 	Stall            // never reply (until the connection is closed)
 	WrongType        // a well-formed agent message of a type that does not answer the request
+	Oversized2G      // length prefix 0x80000000 (negative as a signed 32-bit number)
+	Oversized4G      // length prefix 0xFFFFFFFF
 )
 
-var KindName = map[int]string{Honest: "honest", Failure: "failure", Garbage: "garbage", Oversized: "oversized", Truncated: "truncated", Close: "close", Custom: "custom", Stall: "stall", WrongType: "wrong-type"}
+var KindName = map[int]string{Honest: "honest", Failure: "failure", Garbage: "garbage", Oversized: "oversized", Truncated: "truncated", Close: "close", Custom: "custom", Stall: "stall", WrongType: "wrong-type", Oversized2G: "oversized-2g", Oversized4G: "oversized-4g"}
 
 // Action says how to answer one request.
 type Action struct {
@@ -245,6 +247,10 @@ func (a *Agent) ServeConn(c net.Conn) {
 		case Oversized:
 			// a declared length of 16 MiB + 1; the stream is out of sync afterwards, so the connection ends
 			frame, out, stop = false, []byte{0x01, 0x00, 0x00, 0x01, 12, 0, 0, 0, 0}, true
+		case Oversized2G:
+			frame, out, stop = false, []byte{0x80, 0x00, 0x00, 0x00, 12, 0, 0, 0, 0}, true
+		case Oversized4G:
+			frame, out, stop = false, []byte{0xff, 0xff, 0xff, 0xff, 12, 0, 0, 0, 0}, true
 		case Truncated:
 			frame, out, stop = false, []byte{0x00, 0x00, 0x00, 0x40, 12, 0, 0}, true
 		case Close:
